@@ -1436,6 +1436,7 @@ func TestC20(t *testing.T) {
 	e.precompileSweep()
 	e.precompileRunSweep(t)
 	e.handlerSweep(t)
+	e.containSweep(t)
 	e.decoderSweep()
 	e.feeSweep()
 	e.hostileAnte()
